@@ -369,6 +369,8 @@ pub fn scan_workdirs(rt: &mut Rt) {
 
 pub enum WatchError {
     NotFound,
+    /// injected: the kernel refuses the watch (ENOSPC: inotify watch limit reached)
+    Limit,
 }
 
 pub fn new_watcher(handler: Box<dyn FnMut(u8, Vec<PathBuf>)>) -> usize {
@@ -381,7 +383,57 @@ pub fn new_watcher(handler: Box<dyn FnMut(u8, Vec<PathBuf>)>) -> usize {
 }
 
 pub fn watch(id: usize, path: &Path) -> Result<(), WatchError> {
-    crate::rt::with(|rt| match std::fs::metadata(path) {
+    let r = crate::rt::with(|rt| {
+        if rt.fault("notify.watch").is_some() {
+            rt.ev("watch-error", &format!("w{} {} ENOSPC(injected)", id, crate::trace::esc_path(path)));
+            return Err(WatchError::Limit);
+        }
+        watch_inner(rt, id, path)
+    });
+    // notify's event-loop thread runs beside the thread calling `watch()`: between two `watch()`
+    // calls of one watcher it may already hand events for the paths registered so far to the
+    // callback (and the workload may be writing). The scheduler decides.
+    if r.is_ok() {
+        for _ in 0..4 {
+            enum Act {
+                Deliver,
+                Apply(usize),
+                Stop,
+            }
+            let act = crate::rt::with(|rt| {
+                let queued = !rt.vfs.watchers[id].queue.is_empty() && !rt.vfs.watchers[id].dead;
+                let ev = rt.enabled_plan_fs_event();
+                if !queued && ev.is_none() {
+                    return Act::Stop;
+                }
+                if !rt.decide_inline("events-during-watch-registration") {
+                    return Act::Stop;
+                }
+                if queued {
+                    // consume the matching FsDeliver event
+                    if let Some(pos) = rt.events.iter().position(|e| matches!(e.kind, EvKind::FsDeliver { watcher, .. } if watcher == id)) {
+                        rt.events.remove(pos);
+                    }
+                    Act::Deliver
+                } else {
+                    Act::Apply(ev.unwrap())
+                }
+            });
+            match act {
+                Act::Stop => break,
+                Act::Deliver => deliver(id),
+                Act::Apply(idx) => {
+                    let ev = crate::rt::with(|rt| rt.events.remove(idx));
+                    crate::fire_event(ev);
+                }
+            }
+        }
+    }
+    r
+}
+
+fn watch_inner(rt: &mut Rt, id: usize, path: &Path) -> Result<(), WatchError> {
+    match std::fs::metadata(path) {
         Ok(md) => {
             rt.vfs.watchers[id].roots.push((path.to_path_buf(), md.is_dir()));
             rt.ev("watch", &format!("w{} {} dir={}", id, crate::trace::esc_path(path), md.is_dir()));
@@ -391,7 +443,7 @@ pub fn watch(id: usize, path: &Path) -> Result<(), WatchError> {
             rt.ev("watch-error", &format!("w{} {} NotFound", id, crate::trace::esc_path(path)));
             Err(WatchError::NotFound)
         }
-    })
+    }
 }
 
 pub fn close_watcher(id: usize) {
